@@ -292,6 +292,9 @@ func checkC14(w *World, st core.Status, r *RunResult) []Violation {
 	var vs []Violation
 	for _, o := range w.Obs {
 		p := o.Plan
+		if transportLimit(o, r) {
+			continue
+		}
 		tag := cfgTag(w, o)
 		add := func(class, msg string) {
 			vs = append(vs, Violation{Class: "C14/" + class + "/" + tag, Msg: p.ID + ": " + msg})
@@ -327,9 +330,6 @@ func checkC14(w *World, st core.Status, r *RunResult) []Violation {
 			r.Probes["cancelled_calls"]++
 			continue // codes after cancellation are C15's business
 		}
-		if ex == nil {
-			continue
-		}
 		// 2. handler sees end-of-request after CloseRequest
 		closedReq := p.Kind != KBidi
 		for _, op := range all {
@@ -345,9 +345,9 @@ func checkC14(w *World, st core.Status, r *RunResult) []Violation {
 				add("handler-unclean-end", fmt.Sprintf("request stream ended with %v after CloseRequest", o.H.RecvEnd))
 			}
 		}
-		// 4./5. Sends after the handler returned
+		// 4./5. Sends after the handler returned (step-based: stub world only)
 		for _, op := range all {
-			if op.Op != "send" {
+			if op.Op != "send" || ex == nil {
 				continue
 			}
 			if ex.HandlerDoneStep >= 0 && op.Start > ex.HandlerDoneStep {
